@@ -82,8 +82,33 @@ Proof. exact put_error_typing_text. Qed.
 (* the two notations denote the same member for reader and writer alike *)
 Theorem C12_notations_alike : forall segs,
   forallb seg_ok segs = true ->
-  parse_path (render segs) = Some (map seg_tok segs) /\ ref_tokens (render segs) = map seg_tok segs.
+  parse_path (render segs) = Some (map seg_tok segs) /\ ref_tokens (render segs) = Some (map seg_tok segs).
 Proof. intros segs H. split; [apply parse_path_render | apply ref_tokens_render]; exact H. Qed.
+
+(* bracket notation takes ANY member name without an apostrophe literally ('.', ':', '$', '[', ']', blanks included): the writer places the
+   result exactly there, reading those steps gives it back, and every incomparable part of the input is unchanged *)
+Theorem C12_bracket_names_are_literal : forall segs,
+  forallb wseg_ok segs = true -> ref_tokens (render segs) = Some (map seg_tok segs).
+Proof. exact ref_tokens_render_w. Qed.
+
+Theorem C12_put_get_any_bracket_name : forall segs j r j',
+  forallb wseg_ok segs = true -> forallb tok_ok (map seg_tok segs) = true -> segs <> [] ->
+  apply_resultpath_m j r (Some (render segs)) = Ok j' ->
+  select_tokens j' (map seg_tok segs) = Some r.
+Proof. exact put_get_text_w. Qed.
+
+Theorem C12_put_frame_any_bracket_name : forall segs j r j' q,
+  forallb wseg_ok segs = true -> forallb tok_ok (map seg_tok segs) = true -> segs <> [] ->
+  apply_resultpath_m j r (Some (render segs)) = Ok j' ->
+  comparable (map seg_tok segs) q = false ->
+  select_tokens j' q = select_tokens (norm_input j) q.
+Proof. exact put_frame_text_w. Qed.
+
+Example C12_special_names_satisfiable :
+  forallb wseg_ok [Brq "a.b"; Dot "c"; Brq "x:y$[0]"] = true /\ forallb tok_ok ["a.b"; "c"; "x:y$[0]"] = true /\
+  apply_resultpath_m (JObj [("a.b", JInt 1); ("a", JObj [("b", JInt 2)])]) (JStr "r") (Some "$['a.b']")
+  = Ok (JObj [("a.b", JStr "r"); ("a", JObj [("b", JInt 2)])]).
+Proof. repeat split; vm_compute; reflexivity. Qed.
 
 (* non-vacuity: concrete paths and documents meet the hypotheses *)
 Example C12_hypotheses_satisfiable :
@@ -107,3 +132,6 @@ Print Assumptions C12_put_root_and_null.
 Print Assumptions C12_put_wf.
 Print Assumptions C12_put_error_typing.
 Print Assumptions C12_notations_alike.
+Print Assumptions C12_bracket_names_are_literal.
+Print Assumptions C12_put_get_any_bracket_name.
+Print Assumptions C12_put_frame_any_bracket_name.
